@@ -262,13 +262,9 @@ func (e *SpecEnv) eval(ex Expr) Val {
 			}
 			return Term{"(forall (" + strings.Join(binds, " ") + ") " + inner + ")", boolT}
 		}
-		exBody := and(append(guards, body)...)
-		if pat := indexPattern(exBody, ch, n.Vars); pat != "" {
-			// an existential goal becomes a universal hypothesis when negated: give it the slice-read trigger
-			// so that pure E-matching can instantiate it with the witness of an assumed existential
-			return Term{"(exists (" + strings.Join(binds, " ") + ") (! " + exBody + " :pattern (" + pat + ")))", boolT}
-		}
-		return Term{"(exists (" + strings.Join(binds, " ") + ") " + exBody + ")", boolT}
+		// (an explicit trigger on existentials was tried and withdrawn: it made E-matching miss witnesses the
+		// solver's own trigger selection finds, see DESIGN.md section 8.3)
+		return Term{"(exists (" + strings.Join(binds, " ") + ") " + and(append(guards, body)...) + ")", boolT}
 	case *LetE:
 		ch := e.child()
 		ch.vars[n.Name] = e.eval(n.Val)
